@@ -310,7 +310,7 @@ class GFA:
 
         node1_dir, node2_dir = E_DIR[(node1_dir, node2_dir)]
         if tags:
-            self.edge_tags[(node1, node1_dir, node2, node2_dir)] = tags
+            self.edge_tags[(node1, node1_dir, node2, node2_dir, overlap)] = tags
         if node1_dir == 0:
             self[node1].add_from_start(node2, node2_dir, overlap)
         else:
@@ -487,7 +487,7 @@ class GFA:
                 overlap = str(n[2]) + "M"
                 if n[0] in set_of_nodes:
                     try:
-                        tags = self.edge_tags[(n1, 0, n[0], n[1])]
+                        tags = self.edge_tags[(n1, 0, n[0], n[1], n[2])]
                     except KeyError:
                         tags = []
                     if tags:
@@ -509,7 +509,7 @@ class GFA:
 
                 if n[0] in set_of_nodes:
                     try:
-                        tags = self.edge_tags[(n1, 1, n[0], n[1])]
+                        tags = self.edge_tags[(n1, 1, n[0], n[1], n[2])]
                     except KeyError:
                         tags = []
                     if tags:
